@@ -586,6 +586,8 @@ func (c15) Exec(c string) (string, []Fail) {
 		op = v
 	}
 	switch op {
+	case "cl1", "rx", "s2", "fw": // the set-up code around the searches (c15_setup.go)
+		return c15ExecSetup(x, op, base, w)
 	case "conc": // the searches under concurrent use (c15_conc.go)
 		return c15ExecConc(base)
 	case "race":
@@ -2141,6 +2143,8 @@ func (c15) Gen(rng *rand.Rand, tier string, emit func(string)) {
 			}
 		}
 	}
+	// ---- the set-up code around the searches and its error paths (c15_setup.go; its own PRNG)
+	c15GenSetup(tier, emit)
 	// ---- the searches under concurrent use (LAST: the cases above keep their PRNG draws)
 	c15GenConc(rng, tier, emit)
 }
